@@ -1578,7 +1578,7 @@ class C09Engine(Engine):
                           "line ordinals", "clock and uuid pinned", "reference process = fork()"]
 
     def budget(self, tier):
-        return 2500 if tier == "quick" else 120000
+        return 2500 if tier == "quick" else 80000
 
     def setup(self):
         import scippneutron  # noqa: F401
